@@ -25,6 +25,10 @@ package main
 //	(c) a result without error contains no `${…}` match;
 //	(d) end to end: Run binds the same string (only for "plain" results), or fails when the direct call fails.
 //
+// Tag TEXTS (scenario `T …`, see the section "from the tag TEXT" at the end): the property is created from the whole text of a
+// `value` tag - value part and arguments - whose placeholders nest in front of a comma of the outer block
+// (placeholder-tagtext).
+//
 // Histories (scenario `H …`, see the section "histories" below): tags are resolved, paths of the configuration are changed
 // with Configure.Set, the same tags are resolved again on fresh properties; the second resolution is judged like a first
 // one under the CURRENT configuration (placeholder-set-stale / placeholder-set-current).
@@ -525,6 +529,7 @@ type phEv struct {
 	indirect       bool     // a replacement carried placeholders itself and was substituted in turn
 	steps          int      // placeholders substituted so far (= look-ups the library needs)
 	chain          []string // keys whose value is being substituted right now
+	litBraces      bool     // the literals are the generator's own and may carry the braces of an expression wrapper `#{…}`
 }
 
 const phMaxSteps = 300 // far below the library's bound of 1000 replacements: beyond it the oracle claims nothing
@@ -536,7 +541,7 @@ func (e *phEv) eval(ns []*phNode) (string, bool) {
 	var sb strings.Builder
 	for _, n := range ns {
 		if n.key == nil {
-			if strings.ContainsAny(n.lit, "{}") {
+			if strings.ContainsAny(n.lit, "{}") && !e.litBraces {
 				return "", false
 			}
 			sb.WriteString(n.lit)
@@ -722,6 +727,10 @@ func phReplay(scn string, w *hx.Writer) {
 		phHistReplay(f, w)
 		return
 	}
+	if len(f) > 0 && f[0] == "T" {
+		phTextReplay(f, w)
+		return
+	}
 	if len(f) < 2 {
 		return
 	}
@@ -764,6 +773,7 @@ func phCfgOf(kv ...any) *cval {
 }
 
 func phCorpus(w *hx.Writer) {
+	defer phTextCorpus(w)
 	defer phHistCorpus(w)
 	list := &cval{kind: 'l', xs: []*cval{cNum("1"), cStr("x"), {kind: 'b', b: true}}}
 	base := func() *cval {
@@ -1441,6 +1451,8 @@ func phGen(rng *hx.Rng, n int, tier string, w *hx.Writer) {
 	phGenIndirect(rng.Fork(), (n+5)/6, w)
 	// … and histories: tags resolved, paths changed with Set, the same tags resolved again
 	phGenHist(rng.Fork(), (n+11)/12, w)
+	// … and (seventh round) tags given as TEXT with arguments, whose placeholders nest in front of a comma of the outer block
+	phGenNested(rng.Fork(), (n+11)/12, w)
 }
 
 // ---------------------------------------------------------------- histories
@@ -1985,5 +1997,319 @@ func phGenHist(rng *hx.Rng, groups int, w *hx.Writer) {
 			h.ops = append(h.ops, phOpsNear(r, cfg0, path)...)
 		}
 		runPhHist(h, w)
+	}
+}
+
+// ---------------------------------------------------------------- from the tag TEXT (seventh round)
+//
+//	scenario     `T <tag-text-hex> <cfg>`     the whole text of a `value` tag: value part AND arguments (`,required`, `,validate=…`)
+//	observation  `<TagStr-hex> <TagVal-hex>` | `<TagStr-hex> err|panic|hang`
+//
+// The property is created from the tag text by the real NewProperty (TagArg.Parse cuts the arguments off), then handed to
+// the real processor.  The texts nest placeholders so that an inner `}` is followed by a comma that still belongs to the
+// outer block: `${motd.${lang}:Welcome, stranger},required`, `#{max(${low:1},${quota.${tier}:100})},validate=min=1`.
+// Oracles: (a), (c) as everywhere; placeholder-tagtext: the value part of a bracket-balanced text is the text before its
+// first TOP-LEVEL comma (the harness's own reader, tagSplitTop) — a processor handed anything else cannot have replaced
+// the placeholders of the tag; (b) the harness's own substitution of that value part; (d) end to end when the arguments
+// are inert for the other processors.
+
+type phTextCase struct {
+	text      string
+	val       string    // the value part as the generator rendered it ("" = read it off the text)
+	nodes     []*phNode // the structure of the value part (nil = read it off the value part, if it reads)
+	litBraces bool      // the literals of `nodes` carry the braces of an expression wrapper `#{…}`
+	cfg       *cval
+	tags      []string
+	e2e       bool
+}
+
+func runPhText(c phTextCase, w *hx.Writer) {
+	if phHung {
+		return
+	}
+	phQuiet.Do(func() { syslog.Level(syslog.LvPanic) })
+	yamlBytes, err := yaml.Marshal(c.cfg.toAny())
+	if err != nil || len(c.cfg.xs) == 0 {
+		yamlBytes = nil
+	}
+	cfg, err := newConfigure(yamlBytes)
+	if err != nil {
+		return
+	}
+	if c.val == "" {
+		segs, ok := tagSplitTop(c.text, ',')
+		if !ok {
+			return // outside the form the oracle speaks about
+		}
+		c.val = segs[0]
+	}
+	if c.nodes == nil {
+		if ns, ok := phParse(c.val); ok {
+			c.nodes = ns
+		}
+	}
+	r := phDirect(cfg, c.text, false)
+	var toks []string
+	c.cfg.tokens(&toks)
+	res := r.obs
+	out := hx.Case{Scn: "T " + hx.Hex(c.text) + " " + strings.Join(toks, " "), Obs: hx.Hex(r.tagStr) + " " + res, Tags: c.tags}
+	tr := phRefTrace(cfg, r.tagStr)
+	if tr.opaque {
+		out.Scn = "# " + out.Scn
+		out.Tags = append(out.Tags, "opaque")
+	}
+	switch res {
+	case "hang":
+		phHung = true
+		out.Oracle = "FAIL placeholder-hang no answer within 5s"
+	case "panic":
+		msg := fmt.Sprint(r.pan)
+		switch {
+		case tr.loneQuote && strings.Contains(msg, "slice bounds out of range [1:0]"):
+			out.Oracle = "FAIL placeholder-panic-lone-quote " + msg
+		case tr.getPanic && strings.Contains(msg, "index out of range [-"):
+			out.Oracle = "FAIL placeholder-panic-negative-index " + msg
+		default:
+			out.Oracle = "FAIL placeholder-panic " + msg
+		}
+	case "err":
+	default:
+		if phQuote.MatchString(r.val) {
+			out.Oracle = fmt.Sprintf("FAIL placeholder-left result %q still has a placeholder", r.val)
+		}
+	}
+	if r.tagStr != c.val && strings.Contains(c.val, "${") && res != "hang" && res != "panic" {
+		out.Oracle = fmt.Sprintf("FAIL placeholder-tagtext the value part of the tag %q is %q (the text before its first top-level comma); the processor was handed %q and gives %q (obs %s): the placeholders of the tag are not replaced",
+			c.text, c.val, r.tagStr, r.val, res)
+	}
+	if c.nodes != nil && out.Oracle == "" {
+		ev := &phEv{root: c.cfg, litBraces: c.litBraces}
+		if want, ok := ev.eval(c.nodes); ok {
+			out.Tags = append(out.Tags, "eval-oracle")
+			if res != hx.Hex(want) {
+				sig := "placeholder-eval"
+				switch {
+				case ev.indirect:
+					sig = "placeholder-indirect"
+				case ev.emptyNoDefault:
+					sig = "placeholder-empty-container-kept"
+				}
+				out.Oracle = fmt.Sprintf("FAIL %s tag %q gives %q (obs %s), substitution of its value part %q gives %q", sig, c.text, r.val, res, c.val, want)
+			}
+		}
+	}
+	if c.e2e && out.Oracle == "" && !tr.opaque && (res == "err" || (res != "panic" && phPlain(r.val))) {
+		got, failed, pan, ran := phEndToEnd(yamlBytes, c.text)
+		if ran {
+			out.Tags = append(out.Tags, "e2e")
+			switch {
+			case pan != nil:
+				out.Oracle = fmt.Sprintf("FAIL placeholder-e2e Run panicked or hung: %v", pan)
+			case res == "err" && !failed:
+				out.Oracle = fmt.Sprintf("FAIL placeholder-e2e direct call fails, Run succeeds with %q", got)
+			case res != "err" && (failed || got != r.val):
+				out.Oracle = fmt.Sprintf("FAIL placeholder-e2e direct %q, Run failed=%v bound %q", r.val, failed, got)
+			}
+		}
+	}
+	w.Put(out)
+}
+
+func phTextReplay(f []string, w *hx.Writer) {
+	if len(f) < 3 {
+		return
+	}
+	s, err := hx.UnHex(f[1])
+	if err != nil {
+		return
+	}
+	cfg, rest, ok := parseCfgTokens(f[2:])
+	if !ok || len(rest) != 0 || cfg.kind != 'm' {
+		return
+	}
+	runPhText(phTextCase{text: s, cfg: cfg, tags: []string{"replay"}}, w)
+}
+
+var phTextArgs = []string{"required", "required=true", "Required", "required=false", "validate=required", "validate=min=1 max=30",
+	"qualifier=[a, b]", "x=(p, q) r", "mapper=yaml", "validate"}
+
+// phNestedCase: a configuration and a value part whose placeholders nest so that an inner closer is followed by a comma
+// of the outer block
+func phNestedCase(r *hx.Rng) (*cval, []*phNode, string, bool) {
+	g := &phIndGen{r: r, cfg: cMap(), used: map[string]bool{"zz": true}}
+	lit := func(s string) *phNode { return &phNode{lit: s} }
+	ref := func(key string) *phNode { return &phNode{key: []*phNode{lit(key)}} }
+	withD := func(n *phNode, def ...*phNode) *phNode {
+		n.hasD, n.def = true, def
+		if def == nil {
+			n.def = []*phNode{}
+		}
+		return n
+	}
+	commaText := func() string {
+		return g.atom(3) + []string{", ", ",", " , ", ", "}[r.Intn(4)] + g.atom(3)
+	}
+	value := func() *cval {
+		switch r.Intn(5) {
+		case 0:
+			return cNum(strconv.Itoa(r.Intn(500)))
+		case 1:
+			return cStr(commaText())
+		}
+		return cStr(g.atom(5))
+	}
+	// a selector: its value is the tail of another key
+	word := g.letters(1, 3)
+	sel := g.fresh(false)
+	selAbsent := r.P(1, 6)
+	if !selAbsent {
+		g.put(sel, cStr(word))
+	}
+	selNode := func() *phNode {
+		n := ref(sel)
+		if r.P(1, 8) {
+			n = ref(strings.ToUpper(sel))
+		}
+		if selAbsent || r.P(1, 5) {
+			withD(n, lit(word))
+		}
+		return n
+	}
+	// ${base.${sel}:text, text}   /   ${base${sel}:text, text}
+	nestedKey := func(dotted bool) *phNode {
+		base := g.fresh(false)
+		path := base + word
+		if dotted {
+			path = base + "." + word
+		}
+		if r.P(2, 3) {
+			g.put(path, value())
+		}
+		key := []*phNode{lit(path[:len(path)-len(word)]), selNode()}
+		return withD(&phNode{key: key}, lit(commaText()))
+	}
+	simple := func(numeric bool) *phNode {
+		k := g.fresh(true)
+		present := r.P(1, 2)
+		if present {
+			if numeric {
+				g.put(k, cNum(strconv.Itoa(1+r.Intn(90))))
+			} else {
+				g.put(k, value())
+			}
+		}
+		n := ref(k)
+		if !present || r.P(1, 3) {
+			if numeric {
+				withD(n, lit(strconv.Itoa(1+r.Intn(200))))
+			} else {
+				withD(n, lit(g.atom(3)))
+			}
+		}
+		return n
+	}
+	numNested := func() *phNode {
+		base := g.fresh(false)
+		if r.P(2, 3) {
+			g.put(base+"."+word, cNum(strconv.Itoa(1+r.Intn(900))))
+		}
+		return withD(&phNode{key: []*phNode{lit(base + "."), selNode()}}, lit(strconv.Itoa(100*(1+r.Intn(9)))))
+	}
+	var ns []*phNode
+	shape := r.Intn(8)
+	litBraces := false
+	switch shape {
+	case 0:
+		ns = []*phNode{nestedKey(true)}
+	case 1:
+		ns = []*phNode{nestedKey(false)}
+	case 2: // the default holds placeholders and a comma behind the first of them
+		ns = []*phNode{withD(ref("zz"+g.letters(1, 2)), simple(false), lit([]string{", ", ",", " , "}[r.Intn(3)]), simple(false))}
+		if r.P(1, 2) {
+			ns[0].def = append(ns[0].def, lit(g.atom(2)))
+		}
+	case 3: // an expression over placeholders: #{max(${low:1},${quota.${tier}:100})}
+		litBraces = true
+		fn := []string{"max", "min", "sum"}[r.Intn(3)]
+		ns = []*phNode{lit("#{" + fn + "("), simple(true), lit(","), numNested()}
+		if r.P(1, 3) {
+			ns = append(ns, lit(", "), simple(true))
+		}
+		ns = append(ns, lit(")}"))
+	case 4: // … with nested calls: the inner `)` comes before a comma of the outer call
+		litBraces = true
+		ns = []*phNode{lit("#{max(min("), simple(true), lit(", " + strconv.Itoa(r.Intn(50)) + "), "), simple(true), lit(")}")}
+	case 5: // a call in the default: ${k${sel}:f(x, y)}
+		base := g.fresh(false)
+		if r.P(1, 2) {
+			g.put(base+word, value())
+		}
+		ns = []*phNode{withD(&phNode{key: []*phNode{lit(base), selNode()}}, lit(g.letters(1, 2)+"("+commaText()+")"))}
+	case 6: // two blocks in one tag
+		ns = []*phNode{nestedKey(r.Bool()), lit(g.atom(2)), withD(ref("zz"+g.letters(1, 2)), simple(false), lit(", "), lit(g.atom(3)))}
+	default: // one level deeper: ${a.${b${c}}:x, y}
+		base := g.fresh(false)
+		w2 := g.letters(1, 2)
+		s2 := g.fresh(false)
+		g.put(s2, cStr(w2))
+		s1 := g.fresh(false)
+		g.put(s1+w2, cStr(word))
+		if r.P(2, 3) {
+			g.put(base+"."+word, value())
+		}
+		inner := &phNode{key: []*phNode{lit(s1), ref(s2)}}
+		ns = []*phNode{withD(&phNode{key: []*phNode{lit(base + "."), inner}}, lit(commaText()))}
+	}
+	if !litBraces {
+		if r.P(1, 3) {
+			ns = append([]*phNode{lit(g.atom(3))}, ns...)
+		}
+		if r.P(1, 3) {
+			ns = append(ns, lit(g.atom(3)))
+		}
+	}
+	return g.cfg, ns, fmt.Sprintf("nest-shape%d", shape), litBraces
+}
+
+func phGenNested(rng *hx.Rng, groups int, w *hx.Writer) {
+	for i := 0; i < groups; i++ {
+		r := rng.Fork()
+		cfg, nodes, shape, litBraces := phNestedCase(r)
+		val := phRender(nodes)
+		text := val
+		inert := true
+		nargs := 0
+		if r.P(4, 5) {
+			for n := 1 + r.Intn(2); n > 0; n-- {
+				k := r.Intn(len(phTextArgs))
+				if r.P(1, 2) {
+					k = r.Intn(3)
+				}
+				if k > 2 {
+					inert = false
+				}
+				text += "," + phTextArgs[k]
+				nargs++
+			}
+		}
+		np, depth := countPh(nodes)
+		tags := []string{"grammar", "tagtext", shape, fmt.Sprintf("args%d", nargs), fmt.Sprintf("ph%d", np), fmt.Sprintf("depth%d", depth)}
+		e2e := inert && r.P(1, 4)
+		runPhText(phTextCase{text: text, val: val, nodes: nodes, litBraces: litBraces, cfg: cfg, tags: append(append([]string{}, tags...), "cfg-designed"), e2e: e2e}, w)
+		runPhText(phTextCase{text: text, val: val, nodes: nodes, litBraces: litBraces, cfg: phMutate(r, cfg), tags: append(append([]string{}, tags...), "cfg-mutated"), e2e: e2e}, w)
+	}
+}
+
+// tag texts with arguments whose placeholders nest in front of a comma of the outer block (runs after the other corpus cases)
+func phTextCorpus(w *hx.Writer) {
+	cfg := func() *cval {
+		return phCfgOf("lang", "de", "motd", phCfgOf("de", "Hallo, Fremder", "en", "Hello, stranger"), "tier", "gold", "quota", phCfgOf("gold", 500), "low", 3,
+			"who", "you", "a", 1, "p", "b", "ab", "hit")
+	}
+	for _, t := range []string{"${motd.${lang}:Welcome, stranger}", "${motd.${lang}:Welcome, stranger},required", "${motd.${nolang:fr}:Welcome, whoever ${who} are},required=true",
+		"${motd.${lang}:Welcome, stranger},validate=required,required", "#{max(${low:1},${quota.${tier}:100})}", "#{max(${low:1},${quota.${tier}:100})},validate=min=1 max=3",
+		"#{max(min(${low:1}, 10), ${a})},required", "${zz:${a}, ${p}},qualifier=[a, b]", "${a${p}:x, y}-${zz:(${a}, ${a})},x=(p, q) r", "${a},required=false", "${zz:x,y},required",
+		"${a${p}},required", "${motd.${lang}},required"} {
+		runPhText(phTextCase{text: t, cfg: cfg(), tags: []string{"corpus", "tagtext"}, e2e: true}, w)
 	}
 }
